@@ -397,3 +397,93 @@ OUTSIDE = ['gpg\'s own cryptography, key states and trust database (binary)',
            'more than 4 status lines (the loop keeps three monotone flags; see DESIGN.md)']
 STUBS = ['gemato.openpgp.subprocess -> transcript world', 'gemato.openpgp.os/tempfile/open '
          'for the isolated environment', 'gemato.cli.ManifestRecursiveLoader stub for -s']
+
+
+def validate(seed, tier):
+    """Ties the transcript model to the real gpg binary (where one is installed): a key is
+    generated in a throw-away GNUPGHOME with `trust-model direct`, a Manifest clear-signed,
+    and the real verify_file runs for every owner-trust level, for tampered text and for an
+    unknown signer.  Each real status line must use a keyword of the vocabulary, VALIDSIG
+    must be well-formed, and the real outcome must equal the reference rule applied to the
+    real transcript."""
+    import os
+    import shutil
+    import subprocess
+    import tempfile
+    if shutil.which('gpg') is None:
+        return 0, [{'note': 'no gpg binary: transcript vocabulary not cross-checked'}], []
+    agree, details, errs = 0, [], []
+    home = tempfile.mkdtemp(prefix='vf-gpg-', dir=os.environ.get('TMPDIR', '/tmp'))
+    os.chmod(home, 0o700)
+    old = os.environ.get('GNUPGHOME')
+    os.environ['GNUPGHOME'] = home
+    kw_index = {v.split(b' ')[0]: i for i, v in enumerate(VOCAB)}
+    extra_ok = {b'FAILURE', b'PROGRESS', b'KEYEXPIRED', b'NODATA', b'UNEXPECTED', b'PLAINTEXT',
+                b'PLAINTEXT_LENGTH', b'SIGEXPIRED', b'NOTATION_NAME', b'NOTATION_DATA',
+                b'POLICY_URL', b'WARNING', b'ERROR'}
+
+    def gpg(*a, inp=None):
+        return subprocess.run(['gpg', '--batch', '--pinentry-mode', 'loopback',
+                               '--passphrase', ''] + list(a), input=inp,
+                              capture_output=True)
+    try:
+        with open(os.path.join(home, 'gpg.conf'), 'w') as f:
+            f.write('trust-model direct\n')
+        gpg('--quick-generate-key', 'vf test <vf@example.org>', 'ed25519', 'sign', 'never')
+        fpr = [ln.split(b':')[9] for ln in gpg('--with-colons', '--list-keys').stdout
+               .splitlines() if ln.startswith(b'fpr:')][0].decode()
+        signed = gpg('--clearsign', inp=b'DATA a 0\nDATA b 1\n').stdout.decode()
+        cases = []
+        for level, name in ((6, 'ultimate'), (5, 'full'), (4, 'marginal'), (3, 'never'),
+                            (2, 'undefined')):
+            cases.append((name, level, signed))
+        cases.append(('tampered', 6, signed.replace('DATA b 1', 'DATA b 2')))
+        env = g_pgp.SystemGPGEnvironment()
+        for name, level, text in cases:
+            gpg('--import-ownertrust', inp=f'{fpr}:{level}:\n'.encode())
+            raw = subprocess.run(['gpg', '--batch', '--status-fd', '1', '--verify'],
+                                 input=text.encode(), capture_output=True)
+            idxs = []
+            for ln in raw.stdout.splitlines():
+                if not ln.startswith(b'[GNUPG:] '):
+                    continue
+                kw = ln.split(b' ')[1]
+                if kw in kw_index:
+                    idxs.append(kw_index[kw])
+                    if kw == b'VALIDSIG' and len(ln.split(b' ')) < 12:
+                        errs.append(f'real VALIDSIG line has fewer than 10 arguments: {ln}')
+                elif kw not in extra_ok:
+                    errs.append(f'real gpg status keyword outside the vocabulary: {kw}')
+            exp = reference(raw.returncode, idxs)
+            try:
+                sig = env.verify_file(io.StringIO(text))
+                got = 'accept'
+                if sig.fingerprint != fpr:
+                    errs.append('fingerprint mismatch with real gpg')
+            except tuple(EXC) as e:
+                got = EXC[type(e)]
+            if got == exp:
+                agree += 1
+                details.append({'case': name, 'real_exit': raw.returncode, 'outcome': got,
+                                'keywords': [VOCAB[i].split(b' ')[0].decode()
+                                             for i in idxs]})
+            else:
+                errs.append(f'real gpg case {name}: verify_file gave {got}, the reference '
+                            f'rule on the real transcript gives {exp}')
+        # unknown signer: fresh empty keyring
+        os.environ['GNUPGHOME'] = tempfile.mkdtemp(prefix='vf-gpg2-', dir=home)
+        os.chmod(os.environ['GNUPGHOME'], 0o700)
+        try:
+            env.verify_file(io.StringIO(signed))
+            errs.append('signature by an unknown key was accepted')
+        except tuple(EXC):
+            agree += 1
+            details.append({'case': 'unknown signer', 'outcome': 'rejected'})
+    finally:
+        subprocess.run(['gpgconf', '--kill', 'all'], capture_output=True)
+        if old is None:
+            os.environ.pop('GNUPGHOME', None)
+        else:
+            os.environ['GNUPGHOME'] = old
+        shutil.rmtree(home, ignore_errors=True)
+    return agree, details, errs
